@@ -33,6 +33,9 @@ func init() {
 	share("C01", "C01.21", "C15.5", "time gating mutes only inside a mute interval or outside all active intervals")
 	share("C01", "C01.22", "C13.2", "an alert accepted by the API is handed to the provider even when others of its batch are rejected")
 	share("C01", "C01.23", "C07.2", "receiver and timing options of the selected route are the inherited ones")
+	share("C01", "C01.25", "C04.3", "every delivered notification is recorded with this flush's alert sets (a stale entry would de-duplicate a re-fired alert away)")
+	share("C01", "C01.26", "C13.1", "an alert that keeps being re-sent keeps firing: a missing end time becomes receive time plus resolve_timeout on every POST")
+	share("C01", "C01.27", "C13.4", "a re-sent alert is merged with the stored one, so its end time moves forward")
 
 	// C02: the silence verdict follows the stored silences.
 	share("C02", "C02.12", "C12.1", "creating or editing a silence stores it (and nothing else) before Set returns")
@@ -58,10 +61,12 @@ func init() {
 	// C06: grouping.
 	share("C06", "C06.9", "C01.4", "no second live group for the same key: an insert refused by a destroyed group is retried on a fresh one")
 	share("C06", "C06.10", "C01.9", "every stored group runs")
+	share("C06", "C06.12", "C13.5", "the groups API shows current alerts only: every alert predicate drops alerts whose end has passed")
 
 	// C07: routing always yields a receiver.
 	share("C07", "C07.9", "C17.1", "a loaded tree has a root receiver and no root matchers, so every alert is routed")
 	share("C07", "C07.10", "C17.2", "every route's receiver exists: the loader checks the whole tree")
+	share("C07", "C07.12", "C13.6", "the receivers the API shows for an alert are the ones routing selects for that alert")
 
 	// C08: cluster de-duplication.
 	share("C08", "C08.6", "C10.1", "a received log entry is kept iff it is newer: nflog merge is a last-writer-wins join")
@@ -71,6 +76,7 @@ func init() {
 	share("C08", "C08.10", "C19.1", "a logged notification is broadcast: small messages gossiped, oversized ones queued")
 	share("C08", "C08.11", "C19.3", "oversized log messages reach every other member")
 	share("C08", "C08.12", "C19.4", "a gossiped log entry is merged into the addressed state")
+	share("C08", "C08.14", "C01.15", "an entry received from a peer covers one integration only: integrations log under separate keys")
 
 	// C09: silence replication.
 	share("C09", "C09.8", "C12.4", "retention: garbage collection removes a silence only past its retention deadline")
@@ -109,4 +115,57 @@ func init() {
 	share("C20", "C20.6", "C04.3", "what is recorded after success is this flush's alert sets under the integration's key")
 	share("C20", "C20.7", "C01.15", "integrations record under separate keys, so one's record never stands for another's")
 	share("C20", "C20.8", "C05.4", "send_resolved off removes resolved alerts from what is sent")
+
+	// second pass (after seeding round 4: four of eleven first-run misses were rules that existed under another
+	// property's name): every rule whose anchors lie in the dependent property's files and whose statement is a
+	// necessary condition of it
+	share("C01", "C01.28", "C05.1", "the flush classifies an alert as firing until its end time has passed on this instance's clock")
+	share("C01", "C01.29", "C05.3", "an alert that fired again during delivery is not removed with the resolved ones")
+	share("C01", "C01.30", "C05.4", "what is sent lists every firing alert of the batch")
+	share("C01", "C01.31", "C06.2", "every routed alert is put into the group of its route and group labels")
+	share("C01", "C01.32", "C06.3", "a group is never lost from the group map while it holds alerts")
+	share("C01", "C01.33", "C06.4", "a group is stopped only when destroyed")
+	share("C01", "C01.34", "C14.2", "subscribers see the provider's updates in store order")
+	share("C01", "C01.35", "C14.3", "the alerts known at start-up are routed before live updates")
+	share("C01", "C01.36", "C20.9", "the integration's own retry verdict reaches the retry stage")
+	share("C01", "C01.37", "C07.4", "every configured child route is part of the tree")
+	share("C01", "C01.38", "C04.7", "firing and resolved alerts of a flush are told apart by Resolved()")
+	share("C02", "C02.17", "C16.3", "silence regexps are anchored when the matcher is built")
+	share("C02", "C02.18", "C12.6", "query results are clones: callers cannot change a stored silence behind the index")
+	share("C03", "C03.17", "C01.5", "the source cache refuses an alert only when destroyed")
+	share("C04", "C04.16", "C01.10", "the hash sets of a flush cover the whole group")
+	share("C04", "C04.17", "C05.1", "firing/resolved classification of the flush")
+	share("C04", "C04.18", "C10.3", "entries received from peers are merged into the log the de-duplication reads")
+	share("C05", "C05.15", "C01.8", "the next flush comes one group_interval later (timer discipline)")
+	share("C05", "C05.16", "C01.10", "a flush sends the whole group, resolved alerts included")
+	share("C05", "C05.17", "C20.1", "the retry stage sends the batch it filtered and reports the outcome")
+	share("C05", "C05.18", "C01.7", "the group keeps flushing until it is destroyed")
+	share("C06", "C06.13", "C01.3", "every alert is routed")
+	share("C06", "C06.14", "C01.7", "a group runs until destroyed")
+	share("C06", "C06.15", "C01.8", "a recreated group starts with group_wait")
+	share("C06", "C06.16", "C07.1", "a group belongs to exactly one route: the routing function")
+	share("C06", "C06.17", "C07.4", "routes are built from all configured children")
+	share("C06", "C06.18", "C05.1", "a group is emptied only of alerts that were notified as resolved")
+	share("C07", "C07.13", "C16.3", "route regexps are anchored when the matcher is built")
+	share("C08", "C08.15", "C04.4", "a notification is recorded after success, so peers learn of it")
+	share("C08", "C08.16", "C04.5", "all instances use the same log key for a (group, receiver)")
+	share("C08", "C08.17", "C04.7", "all instances hash the same alerts the same way")
+	share("C08", "C08.18", "C10.2", "a local record replaces the stored entry")
+	share("C08", "C08.19", "C10.4", "the waiting instance reads exactly the entry of its group and receiver")
+	share("C08", "C08.20", "C19.6", "the log is registered for gossip before the channel exists")
+	share("C09", "C09.12", "C12.1", "local creates and edits go through the same merge")
+	share("C09", "C09.13", "C12.3", "a local expiry is stored as a newer version")
+	share("C10", "C10.14", "C04.5", "every access to the log uses the key of (group, receiver)")
+	share("C11", "C11.10", "C10.7", "receiver data is stored as given and handed out as a clone")
+	share("C12", "C12.8", "C02.8", "a silence stays queryable: Query returns every silence matching the filters")
+	share("C14", "C14.7", "C01.1", "every stored version is handed to the subscribers")
+	share("C14", "C14.8", "C01.3", "every handed-over version is routed")
+	share("C14", "C14.9", "C06.2", "an update lands in the group holding the alert")
+	share("C14", "C14.10", "C05.3", "a resolved alert is removed only if it was not updated meanwhile")
+	share("C14", "C14.11", "C01.5", "a group store refuses an update only when destroyed")
+	share("C15", "C15.8", "C17.2", "every interval name a route refers to is defined")
+	share("C18", "C18.8", "C01.5", "the store refuses inserts only when destroyed; limit refusals are separate")
+	share("C19", "C19.11", "C09.1", "duplicate deliveries of a silence change nothing: merge is last-writer-wins")
+	share("C19", "C19.12", "C10.1", "duplicate deliveries of a log entry change nothing: merge is last-writer-wins")
+	share("C20", "C20.12", "C08.1", "each integration's chain is wait, dedup, retry, set-notifies in this order")
 }
